@@ -48,7 +48,7 @@ VARIABLES pats, known, opened, last
 vars == <<pats, known, opened, last>>
 
 \* ------------------------------------------------------------- vocabulary
-MCChars == [n \in {"R", "s", "o", "t", "d", "a.txt", "c.txt"} |->
+MCChars == [n \in {"R", "s", "S", "o", "t", "d", "a.txt", "c.txt"} |->
               CASE n = "a.txt" -> <<"a", ".", "t", "x", "t">>
                 [] n = "c.txt" -> <<"c", ".", "t", "x", "t">>
                 [] OTHER       -> <<n>>]
@@ -56,10 +56,11 @@ MCChars == [n \in {"R", "s", "o", "t", "d", "a.txt", "c.txt"} |->
 INSTANCE SafePathCore WITH Chars <- MCChars
 
 \* The test tree: directories and sentinel files (each with its own rule).
-Dirs  == {<<"R">>, <<"R", "s">>, <<"R", "s", "d">>, <<"R", "o">>, <<"R", "t">>}
+Dirs  == {<<"R">>, <<"R", "s">>, <<"R", "s", "d">>, <<"R", "o">>, <<"R", "t">>,
+          <<"R", "S">>}           \* differs from "s" in case only: a different directory
 Files == {<<"R", "a.txt">>, <<"R", "s", "a.txt">>, <<"R", "s", "c.txt">>,
           <<"R", "s", "d", "a.txt">>, <<"R", "o", "a.txt">>, <<"R", "o", "c.txt">>,
-          <<"R", "t", "a.txt">>}
+          <<"R", "t", "a.txt">>, <<"R", "S", "a.txt">>}
 Cwd   == <<"R", "o">>     \* working directory of the server: outside every pattern
 
 LitSeq(cs) == [i \in 1..Len(cs) |-> Lit(cs[i])]
@@ -99,7 +100,7 @@ URL(sc, abs, tail) == [scheme |-> sc, abs |-> abs, segs |-> <<"R">> \o tail]
 
 GenLocs ==
     \* absolute spellings below R
-    {Plain(TRUE, t) : t \in SeqsUpTo({"s", "o", "t", "d", "a.txt", "c.txt", "..", ".", ""}, 3)}
+    {Plain(TRUE, t) : t \in SeqsUpTo({"s", "S", "o", "t", "d", "a.txt", "c.txt", "..", ".", ""}, 3)}
       \cup {Plain(TRUE, t) : t \in SeqsN({"s", "o", "d", "a.txt", "..", ".", ""}, 4)}
       \cup {Plain(TRUE, t) : t \in SeqsN({"s", "..", "a.txt", ""}, 5)}
     \* relative spellings, taken from Cwd = /R/o
@@ -117,6 +118,7 @@ MCLocs ==
                              <<"s", "d", "a.txt">>, <<"s", "..", "o", "a.txt">>,
                              <<"o", "..", "s", "", "a.txt", "">>, <<"s", "d", "..", ".", "c.txt">>,
                              <<"..", "..", "s", "a.txt">>, <<"s", "d">>, <<>>}}
+      \cup {Plain(TRUE, <<"S", "a.txt">>)}
       \cup {Plain(FALSE, t) : t \in {<<"a.txt">>, <<"..", "s", "a.txt">>, <<"s", "a.txt">>}}
       \cup {URL(sc, TRUE, <<"s", "a.txt">>) : sc \in {"file", "ftp", "http"}}
       \cup {URL("file", FALSE, <<"s", "a.txt">>), URL("file", TRUE, <<"s", "..", "o", "a.txt">>)}
@@ -261,5 +263,6 @@ ASSUME MatchPath(Globs[4], <<"R", "t", "a.txt">>) /\ ~MatchPath(Globs[4], <<"R",
 ASSUME MatchPath(Globs[5], <<"R", "s", "d", "a.txt">>) /\ ~MatchPath(Globs[5], <<"R", "s", "a.txt">>)
 ASSUME MatchPath(Globs[6], <<"R", "o", "a.txt">>) /\ ~MatchPath(Globs[6], <<"R", "o", "c.txt">>)
 ASSUME \A f \in Files \cup Dirs : ~MatchPath(Globs[7], f) /\ ~MatchPath(Globs[8], f)
+ASSUME ~MatchPath(Globs[2], <<"R", "S", "a.txt">>) /\ ~MatchPath(Globs[4], <<"R", "S", "a.txt">>)
 ASSUME \A f \in Files \cup Dirs : IsCleanAbs(f)
 =============================================================================
